@@ -4,7 +4,10 @@ proof : Properties/C22.v (slice / batch partition theorems, unique, groupby, sta
         first-extremum min/max, list definitions, attribute paths, async = sync, arguments
         unmodified) + a regenerated obligation file (T3 write footprint of filters.py, the
         `sum_aug` flag) re-checked against the current source.
-tie   : K-rt  extracted Model.FiltCollRun.run_sync / run_async  ==  Environment.call_filter in a
+tie   : T5 translator: gen/filt_translate.py turns the current source of sync_do_slice and do_batch
+        into terms of the deep embedding Lib/PyFilt; the generated files Gen_filt_slice / Gen_filt_batch
+        prove  interpreted source term = Model.FiltColl.do_slice / do_batch  for all inputs;
+        K-rt  extracted Model.FiltCollRun.run_sync / run_async  ==  Environment.call_filter in a
         sync and an async environment, the input given as list, generator and async generator,
         on exhaustive lists up to length L over 3 keys x argument grids + random longer lists;
         a sample of the cases additionally through compiled templates (sync and async).
@@ -339,6 +342,9 @@ def grid(sh, light):
         out.append((mk("sum", (), {"start": start}, f"sum a- {enc(start)}", {"attr": None, "start": start}, start_obj=True),
                     sh["lists"]))
     out.append((mk("sum", (), {}, "sum a- I 0", {"attr": None, "start": 0}), sh["mixed"]))
+    # a str start: the builtin sum() refuses it, the async loop concatenates (recorded finding)
+    for start in ("", "x"):
+        out.append((mk("sum", (), {"start": start}, f"sum a- {enc(start)}", {"attr": None, "start": start}), sh["plain"]))
     for d in ("", ",", 0):
         out.append((mk("join", (d,), {}, f"join {enc(d)} a-", {"d": d, "attr": None}), sh["plain"]))
         out.append((mk("join", (d, "k"), {}, f"join {enc(d)} {enc_attr('k')}", {"d": d, "attr": "k"}), sh["missing"]))
@@ -483,7 +489,8 @@ def judge(ctx, rn, case, value, m_sync, m_async, aug, with_template):
     if m_sync == "ERR EModel":
         ctx.count("outside_model")
         return
-    desc = {"filter": f, "args": case["args"], "kwargs": case["kwargs"], "input": value}
+    desc = {"filter": f, "args": case["args"], "kwargs": case["kwargs"], "input": value,
+            "call": case["call"], "o": case["o"], "input_enc": enc(value), "start_obj": bool(case.get("start_obj"))}
     first_real = None
     for mode, kind in modes_for(case, value, ctx.tier != "thorough"):
         model = m_sync if mode == "sync" else m_async_val
@@ -506,8 +513,10 @@ def judge(ctx, rn, case, value, m_sync, m_async, aug, with_template):
             w = oracle(case, value, r)
             if w:
                 of, sig = w
-        if of is None and first_real is not None and text != first_real[0] and text.startswith("OK") and first_real[0].startswith("OK"):
-            of = f"{mode}/{kind} result differs from {first_real[1]} result"
+        if of is None and first_real is not None and text != first_real[0]:
+            of = f"{mode}/{kind} result ({text[:40]}) differs from {first_real[1]} result ({first_real[0][:40]})"
+            if f == "sum" and isinstance(case["o"].get("start"), str):
+                sig = "C22:sum-str-start-sync-async-differ"
         if first_real is None:
             first_real = (text, f"{mode}/{kind}")
         ok = text == model
@@ -611,6 +620,27 @@ Proof. intros a start xs rv start' H. exact (C22_args_unmodified_sum sum_aug a s
 """
 
 
+def source_equations(ctx, which):
+    """T5: the current source of the function, translated into Lib/PyFilt terms, must be equal to
+    the hand-written model function for all inputs (generated file Gen_filt_<which>.v)."""
+    import filt_translate
+    emit = {"slice": filt_translate.emit_slice, "batch": filt_translate.emit_batch,
+            "truncate": filt_translate.emit_truncate}[which]
+    name = "Gen_filt_" + which
+    try:
+        vtext = emit(lib.SRC)
+    except filt_translate.Untranslatable as e:
+        ctx.obligations += 1
+        ctx.obligation_names.append(name + " (regenerated)")
+        ctx.broken.append(f"translator gen/filt_translate.py: the source of {which} left the translatable vocabulary "
+                          f"or the shape the equation is stated for: {e}")
+        return False
+    ok, out = ctx.coq_obligation(name, vtext, n_obligations=3 if which != "truncate" else 1)
+    if ok:
+        ctx.trusted.append(f"{name} (source term = model function, all inputs): " + " ".join(out.split()))
+    return ok
+
+
 def run(ctx):
     jinja2 = lib.use_repo_jinja()
     ctx.extra["rule"] = RULE
@@ -622,6 +652,8 @@ def run(ctx):
     ]
     ctx.proof("C22")
     aug = regenerated(ctx)
+    source_equations(ctx, "slice")
+    source_equations(ctx, "batch")
     rn = Runner(jinja2)
     cases = build_cases(ctx)
     lines = []
@@ -639,35 +671,31 @@ def run(ctx):
 
 
 def replay(ctx, data):
+    """re-run the single recorded case: model lines for it, every execution mode of the real
+    filter, the oracle and the argument-unmodified check"""
     jinja2 = lib.use_repo_jinja()
     case = data.get("case")
     if data.get("kind") != "failing-input" or case is None:
         print("replay: this file names a broken theorem/correspondence, not an input:", data.get("broken"))
         return run(ctx)
+    import filt_facts
+    from .filt_common import dec
+    aug = filt_facts.sum_aug(lib.REPO)
+    value = dec(case["input_enc"])
+    c = {"filter": case["filter"], "args": case["args"], "kwargs": case["kwargs"], "call": case["call"],
+         "o": case["o"], "start_obj": case.get("start_obj", False)}
+    ev = enc(value)
+    m_sync, m_async = ctx.driver("filtcoll", [f"s {c['call']} | {ev}", f"a{1 if aug else 0} {c['call']} | {ev}"])
+    print("filter:", c["filter"], "args:", c["args"], "kwargs:", c["kwargs"], "input:", value)
+    print("recorded:", data.get("what"))
+    print("model sync :", m_sync)
+    print("model async:", m_async)
     rn = Runner(jinja2)
     try:
-        kind = case.get("input_kind", "list")
-        mode = case.get("mode", "sync")
-        c = {"filter": case["filter"], "args": case["args"], "kwargs": case["kwargs"]}
-        value = case["input"]
-        import copy
-        before = copy.deepcopy((value, c["args"], c["kwargs"]))
-        text, r, _, used = rn.real(c, value, mode, kind)
-        print("filter:", c["filter"], "args:", c["args"], "kwargs:", c["kwargs"], "input:", before[0], f"({mode}/{kind})")
-        print("real :", text if r is None else r)
-        print("args after:", used)
-        print("what :", data.get("what"))
-        # re-judge: rebuild the oracle descriptor from the recorded grid is not possible in
-        # general, so the replay re-runs the small exhaustive stream restricted to this filter
-        cases = [(cs, v) for cs, v in build_cases(ctx) if cs["filter"] == c["filter"]]
-        import filt_facts
-        aug = filt_facts.sum_aug(lib.REPO)
-        lines = []
-        for cs, v in cases:
-            lines.append(f"s {cs['call']} | {enc(v)}")
-            lines.append(f"a{1 if aug else 0} {cs['call']} | {enc(v)}")
-        out = ctx.driver("filtcoll", lines)
-        for i, (cs, v) in enumerate(cases):
-            judge(ctx, rn, cs, v, out[2 * i], out[2 * i + 1], aug, with_template=False)
+        for mode, kind in modes_for(c, value):
+            text, _, _, _ = rn.real(c, value, mode, kind)
+            print(f"real {mode}/{kind}:", text)
+        value = dec(case["input_enc"])
+        judge(ctx, rn, c, value, m_sync, m_async, aug, with_template=(case.get("via") == "template"))
     finally:
         rn.ar.close()
